@@ -3,41 +3,67 @@ import os, json, time
 import pvlib
 from pvlib import Reporter, write_evidence, tlc_gen, pv, read_ndjson, log, OUT, ToolError
 
-U_QUICK = {"NTs": {"S", "A"}, "Ts": {"a", "b"}, "MaxProds": 3, "MaxRhs": 2}
-U_THOROUGH = {"NTs": {"S", "A", "B"}, "Ts": {"a", "b"}, "MaxProds": 4, "MaxRhs": 2}
+U_QUICK = {"NTs": {"S", "A"}, "Ts": {"a", "b"}, "MaxProds": 3, "MaxRhs": 2, "MinProds": 1, "Ordered": True}
+U_THOROUGH = {"NTs": {"S", "A", "B"}, "Ts": {"a", "b"}, "MaxProds": 4, "MaxRhs": 2, "MinProds": 1, "Ordered": True}
+# random walks (tlc -simulate) over a larger universe: R of DESIGN.md section 4
+# many non-terminals, short right-hand sides: long dependency chains / cycles (C11)
+R_CHAIN = {"NTs": {"S", "A", "B", "C", "D", "E"}, "Ts": {"a"}, "MaxProds": 8, "MaxRhs": 2, "MinProds": 5, "Ordered": False}
+R_WIDE = {"NTs": {"S", "A", "B", "C"}, "Ts": {"a", "b"}, "MaxProds": 7, "MaxRhs": 3, "MinProds": 3, "Ordered": False}
 
 
 def universe(tier):
     return dict(U_QUICK if tier == "quick" else U_THOROUGH)
 
 
-def gen_and_replay(prop, tier, module, kind, constants, invariants, rule, level="model_checking",
-                   nshards=16, timeout=3000, assumptions=(), case_key=None, replay=None, extra_cov=None):
+def gen_and_replay(prop, tier, module, kind, spaces, invariants, rule, level="model_checking",
+                   timeout=3000, assumptions=(), case_key=None, replay=None, extra_cov=None, pv_env=None):
+    """spaces: list of dicts {constants, simulate (None = exhaustive | number of random walks), nshards, depth}"""
     t0 = time.time()
     rep = Reporter(prop, tier)
     vec_path = os.path.join(OUT, f"{prop}_{tier}.vec.ndjson")
+    tot = {"generated": 0, "distinct": 0, "vectors": 0, "wall": 0.0}
+    space_cov = []
     if replay:
         case = json.load(open(replay))["case"]
         with open(vec_path, "w") as f:
             f.write(json.dumps(case["vec"]) + "\n")
-        gen = {"generated": 0, "distinct": 0, "vectors": 1, "wall": 0, "violated": None}
+        tot["vectors"] = 1
     else:
-        gen = tlc_gen(module, constants, invariants, nshards, vec_path, timeout=timeout, run_prefix=f"{prop}_{tier}")
-    if gen["violated"]:
-        # a specification-level invariant failed: the spec itself is inconsistent -> tool error,
-        # not a verdict about parol
-        raise ToolError(f"spec invariant {gen['violated']} violated in {module}:\n" + gen["out"][-3000:])
-    if gen["vectors"] == 0:
-        raise ToolError(f"{module}: no vectors generated (vacuous run)")
+        with open(vec_path, "w") as fall:
+            for si, sp in enumerate(spaces):
+                part = vec_path + f".{si}"
+                gen = tlc_gen(module, sp["constants"], sp.get("invariants", invariants), sp.get("nshards", 16), part, timeout=timeout,
+                              run_prefix=f"{prop}_{tier}_{si}", simulate=sp.get("simulate"), depth=sp.get("depth", 20))
+                if gen["violated"]:
+                    # a specification-level invariant failed: the spec itself is inconsistent -> tool error,
+                    # not a verdict about parol
+                    raise ToolError(f"spec invariant {gen['violated']} violated in {module}:\n" + gen["out"][-3000:])
+                if gen["vectors"] == 0:
+                    raise ToolError(f"{module}: no vectors generated in space {si} (vacuous run)")
+                seen = set()
+                with open(part) as f:
+                    for l in f:
+                        if l in seen:
+                            continue
+                        seen.add(l)
+                        fall.write(l)
+                os.remove(part)
+                for k in ("generated", "distinct", "wall"):
+                    tot[k] += gen[k]
+                tot["vectors"] += len(seen)
+                space_cov.append({"constants": {k: (sorted(v) if isinstance(v, (set, frozenset)) else v)
+                                                for k, v in sp["constants"].items()},
+                                  "mode": "exhaustive" if not sp.get("simulate") else f"tlc -simulate num={sp['simulate']} x {sp.get('nshards', 16)} seeds",
+                                  "states": gen["distinct"], "vectors": len(seen)})
     outp = os.path.join(OUT, f"{prop}_{tier}.replay.ndjson")
-    pv(["replay", kind, vec_path, outp], timeout=timeout)
+    pv(["replay", kind, vec_path, outp], timeout=timeout, env=pv_env)
     res = read_ndjson(outp)
     summary = res[-1]["summary"]
     samples = []
     for r in res[:-1]:
         if "tool_error" in r:
             raise ToolError(r["tool_error"])
-        key = case_key(r) if case_key else {"vec": r["vec"], "what": r["mismatch"]["what"]}
+        key = case_key(r) if case_key else {"what": r["mismatch"]["what"]}
         key["vec"] = r["vec"]
         rep.violation(key, f"{r['mismatch']['what']}: expected {json.dumps(r['mismatch']['expected'])[:300]} got {json.dumps(r['mismatch']['actual'])[:300]} on {json.dumps(r['vec'])[:400]}")
     with open(vec_path) as f:
@@ -45,23 +71,37 @@ def gen_and_replay(prop, tier, module, kind, constants, invariants, rule, level=
             if i in (0, summary["vectors"] // 2, summary["vectors"] - 1):
                 samples.append(json.loads(l))
     rc = rep.finish()
-    cov = {"states": gen["distinct"], "transitions": gen["generated"],
+    cov = {"states": max(tot["distinct"], 1), "transitions": max(tot["generated"], 1),
            "traces_validated_against_impl": summary["vectors"], "samples": samples,
            "evaluations": summary["evaluations"], "distinct_nontrivial": summary["nontrivial"],
-           "rule": rule, "tags": summary["tags"], "exhaustive": True,
-           "spec_constants": {k: (sorted(v) if isinstance(v, (set, frozenset)) else v) for k, v in constants.items()},
-           "known_findings_seen": rep.known, "tlc_wall_s": round(gen["wall"], 1)}
+           "rule": rule, "tags": summary["tags"],
+           "exhaustive": all(not sp.get("simulate") for sp in spaces),
+           "spaces": space_cov,
+           "known_findings_seen": rep.known, "tlc_wall_s": round(tot["wall"], 1)}
     if extra_cov:
         cov.update(extra_cov)
     write_evidence(prop, tier, level, cov, time.time() - t0, len(rep.violations), assumptions)
     return rc
 
 
+def with_(c, **kw):
+    d = dict(c)
+    d.update(kw)
+    return d
+
+
+def spaces(tier, extra, wide=None, nsim=None):
+    """exhaustive universe of the tier + random walks over the wide universe"""
+    nsim = nsim if nsim is not None else (25 if tier == "quick" else 1500)
+    # the random walks only emit vectors; the specification-level lemmas are checked exhaustively
+    return [{"constants": with_(universe(tier), **extra)},
+            {"constants": with_(wide or R_WIDE, **extra), "simulate": nsim, "nshards": 16, "depth": 12,
+             "invariants": ["Emit"]}]
+
+
 def c11(prop, tier, replay):
-    c = universe(tier)
-    c["LangN"] = 4
     return gen_and_replay(
-        prop, tier, "Gen_WF", "wf", c, ["Emit", "DefsAgree"],
+        prop, tier, "Gen_WF", "wf", spaces(tier, {"LangN": 4}, wide=R_CHAIN), ["Emit", "DefsAgree"],
         rule="every set of <= MaxProds productions over NTs/Ts with |rhs| <= MaxRhs (TLC enumerates the "
              "GrammarEnum machine exhaustively); each grammar is replayed in given and reversed production "
              "order, as a directly built Cfg and through PAR text, for LL and LALR; a vector is non-trivial "
@@ -72,4 +112,50 @@ def c11(prop, tier, replay):
         replay=replay)
 
 
-REGISTRY = {"C11": c11}
+LL_EXTRA = {"LangN": 4, "MaxK": 3}
+
+
+def c05(prop, tier, replay):
+    return gen_and_replay(
+        prop, tier, "Gen_LL", "c05", spaces(tier, LL_EXTRA), ["Emit", "Lemmas"],
+        rule="every well-formed, left-recursion-free grammar of the universe (TLC filters with WellFormedLL); "
+             "for K = 1..MaxK and both production orders the harness compares calculate_lookahead_dfas (accept iff "
+             "StrongLL(G,K), automaton k = MinK), decidable() per non-terminal (= MinK or failure), the set of "
+             "non-terminals failing at K (= the spec's conflicting set) and every explain_conflicts pair (must be two "
+             "productions of that non-terminal whose lookahead sets intersect at K); non-trivial: some non-terminal "
+             "needs k>=1 (tags: needs_k=1, needs_k>=2, not_LL(maxK))",
+        assumptions=["GrammarAnalysisError::MaxKExceeded carries no non-terminal name; 'names a non-terminal' is "
+                     "observed through decidable()/explain_conflicts(), the functions the error report uses"],
+        replay=replay)
+
+
+def cache_orders(tier):
+    """request orders from the CacheOrders machine"""
+    path = os.path.join(OUT, f"cache_orders_{tier}.ndjson")
+    g = tlc_gen("CacheOrders", {"MaxK": 3, "MaxReq": 3 if tier == "quick" else 4}, ["Emit", "DownwardClosed"], 1,
+                path, spec="Spec", run_prefix=f"cacheorders_{tier}", no_shard_consts=True)
+    if g["violated"]:
+        raise ToolError("CacheOrders invariant violated: " + str(g["violated"]))
+    orders = read_ndjson(path)
+    op = os.path.join(OUT, f"cache_orders_{tier}.json")
+    json.dump(orders, open(op, "w"))
+    return op, g, len(orders)
+
+
+def c06(prop, tier, replay):
+    op, g, n = cache_orders(tier)
+    return gen_and_replay(
+        prop, tier, "Gen_LL", "c06", spaces(tier, LL_EXTRA), ["Emit", "SolverLemmas"],
+        rule="same grammar universe as C05; TLC also checks that the seeded Jacobi chain (FIRST) and the seeded "
+             "Gauss-Seidel chain (FOLLOW) of Solvers.tla reach the least fixpoints for every such grammar; per grammar "
+             "and production order the harness replays ascending, descending and PV_ORDERS_PER request orders taken from "
+             f"the {n} orders the CacheOrders machine emits on one FirstCache/FollowCache pair and compares FIRST_k per "
+             "non-terminal and production and FOLLOW_k per non-terminal after each request (k>=1); non-trivial: every "
+             "vector (tags: epsilon_in_first, two_nts_in_rhs)",
+        assumptions=["k = 0 requests are issued (they seed the chains) but their answers are not compared: FIRST_0/FOLLOW_0 "
+                     "carry no lookahead information"],
+        replay=replay, pv_env={"PV_ORDERS": op, "PV_ORDERS_PER": 4 if tier == "quick" else 8},
+        extra_cov={"cache_orders": n, "cache_machine_states": g["distinct"]})
+
+
+REGISTRY = {"C11": c11, "C05": c05, "C06": c06}
